@@ -41,6 +41,9 @@ def call(fn, *a, **kw):
 def run(ctx):
     import netaddr
     from oslo_utils import netutils
+    from vf import purity
+    _rec = purity.Recorder(netutils, ['parse_host_port', 'escape_ipv6', 'get_mac_addr_by_ipv6', 'urlsplit'], every=1)
+    _rec.__enter__()
     quick = ctx.quick
     ctx.assumptions += [
         'prefixes longer than /64, prefixes with bits in the interface half and IPv4 networks as prefix are outside the statement',
@@ -198,6 +201,8 @@ def run(ctx):
                           'get_mac_addr_by_ipv6 does not recover %s' % mac.hex())
     ctx.cov['evaluations'] += z
     ctx.stage('random-roundtrip', cases=z)
+    _rec.__exit__()
+    _rec.replay(ctx, 'c15')
     # binding self-test: a wrong bit flipped must be exposed
     a = int(netutils.get_ipv6_addr_by_EUI64('2001:db8::/64', '00:16:3e:33:44:55'))
     if (a >> 56) & 0xff != 0x02:
